@@ -360,14 +360,22 @@ Lemma fixed_witnesses :
                 /\ parse no_normalize fixed_all (format fixed_all u) KSync [] = inr u)
   /\ parse no_normalize fixed_all (B "docker://@a@b/p") KSync [] = inl EEmptyUser.
 Proof.
-  split; [|split; [|split]]; try (vm_compute; reflexivity);
-    eexists; (split; [vm_compute; reflexivity|]); repeat split; vm_compute; reflexivity.
+  split; [|split; [|split]].
+  - eexists. split; [vm_compute; reflexivity|]. repeat split; vm_compute; reflexivity.
+  - eexists. split; [vm_compute; reflexivity|]. repeat split; vm_compute; reflexivity.
+  - eexists. split; [vm_compute; reflexivity|]. repeat split; vm_compute; reflexivity.
+  - vm_compute. reflexivity.
 Qed.
 
-(* each of the two conditions of the format rule is needed: with only the
-   port-like-prefix test the Docker-looking text is still printed without its
-   port, and vice versa (the witnesses above, under the code as it is, are the
-   two cases) *)
+(* the two conditions of the format rule are independent, and each is needed:
+   the first witness is not Docker-like, the second has no port-like prefix,
+   and under the code as it is (neither condition) both fail to round-trip
+   (refuted_port_zero, refuted_port_zero_docker) *)
+Lemma format_rule_conditions_independent :
+  port_like_prefix (B "22:foo") = true /\ is_docker_url (B "host:22:foo") = false
+  /\ port_like_prefix (B "//x/y") = false /\ is_docker_url (B "docker://x/y") = true
+  /\ port_like_prefix (B ":x") = true.
+Proof. vm_compute. repeat split; reflexivity. Qed.
 
 (* non-vacuity: URLs of all three protocols and both kinds that parse with the
    repairs in place, with a port, a user, a Windows path, a normalized socket *)
